@@ -6,10 +6,14 @@ cnfgen out : `C <add_edge calls made> <S n m edges sorted-edgeset | ERR ValueErr
              (calls made = all of them, or up to and including the first refused one)
 Draw list  : `<#draws>` then per draw `0 num` (random() = num/2^53) | `1 i` (choice → i)
 Random out : `… R <#unused draws>` | `STUCK`
+`nx_cli`   : the request `gb_cli` of Driver/GraphBuild.lean with the list of networkx draws in front of the
+             optional external graph (which is used for `gnd` only); same answer format as `gb_cli`
 -/
 import CnfgenModel.Driver.Util
 import CnfgenModel.Graph.NxBuild
 import CnfgenModel.Rand.NxDraws
+import CnfgenModel.Cli.GraphArgsNx
+import CnfgenModel.Driver.GraphBuild
 namespace Cnfgen.Driver.NxBuild
 open Cnfgen Cnfgen.Driver Cnfgen.Nx
 
@@ -74,6 +78,15 @@ def handle (opname : String) (a : Args) : Option String :=
   | "nx_gnm" => run (do
       let n ← nat; let m ← nat; let ds ← listOf draw
       pure (fmtOut (gnmGraph n m ds))) a
+  | "nx_cli" => run (do
+      let gt ← int; let c ← int; let args ← listOf GraphBuild.arg
+      let pc ← GraphBuild.optArgs; let pb ← GraphBuild.optArgs; let ae ← GraphBuild.optArgs; let se ← GraphBuild.optArgs
+      let save ← int; let fuel ← nat; let nx ← listOf draw; let e ← GraphBuild.extG; let ds ← GraphBuild.draws
+      match GraphBuild.gtypeOfInt gt, GraphBuild.consOfInt c with
+      | some gt, some c =>
+        pure (GraphBuild.fmtOut (fun res => GraphBuild.fmtCG res.1 ++ " " ++ GraphBuild.fmtSaved res.2)
+          (GCli.obtainGraphNx gt ⟨c, args, pc, pb, ae, se, if save == 0 then none else some (save == 1)⟩ nx e fuel ds))
+      | _, _ => failure) a
   | _ => none
 
 end Cnfgen.Driver.NxBuild
